@@ -1,18 +1,18 @@
 //! C13: joint-space RRT. Scenario-based oracle on the real planner (RRTPlanner::plan_rrt): an irb2400 with box
 //! links, optionally a box obstacle near the straight joint-space line between start and goal.
 use crate::{Found, rng::Rng, json};
-use crate::stroke::{robot, robot_m};
+use crate::stroke::{robot, robot_m, robot_l};
 use rs_opw_kinematics::kinematic_traits::{Joints, Kinematics};
 use rs_opw_kinematics::rrt::RRTPlanner;
 use std::sync::atomic::AtomicBool;
 
-pub struct Scn { pub start: Joints, pub goal: Joints, pub obstacle: bool, pub step_deg: f64, pub max_try: usize, pub cancelled: bool, pub margin: f64 }
+pub struct Scn { pub start: Joints, pub goal: Joints, pub obstacle: bool, pub step_deg: f64, pub max_try: usize, pub cancelled: bool, pub margin: f64, pub j1_window: bool }
 impl Scn {
-    fn to_json(&self) -> String { format!("{{\"start\": {}, \"goal\": {}, \"obstacle\": {}, \"step_deg\": {:?}, \"max_try\": {}, \"cancelled\": {}, \"margin\": {:?}}}",
-        json::nums(&self.start), json::nums(&self.goal), self.obstacle, self.step_deg, self.max_try, self.cancelled, self.margin) }
+    fn to_json(&self) -> String { format!("{{\"start\": {}, \"goal\": {}, \"obstacle\": {}, \"step_deg\": {:?}, \"max_try\": {}, \"cancelled\": {}, \"margin\": {:?}, \"j1_window\": {}}}",
+        json::nums(&self.start), json::nums(&self.goal), self.obstacle, self.step_deg, self.max_try, self.cancelled, self.margin, self.j1_window) }
     fn from_json(o: &str) -> Option<Scn> { let s = json::get_nums(o, "start"); let g = json::get_nums(o, "goal");
         Some(Scn { start: [s[0], s[1], s[2], s[3], s[4], s[5]], goal: [g[0], g[1], g[2], g[3], g[4], g[5]], obstacle: o.contains("\"obstacle\": true"),
-            step_deg: json::get_num(o, "step_deg")?, max_try: json::get_num(o, "max_try")? as usize, cancelled: o.contains("\"cancelled\": true"), margin: json::get_num(o, "margin").unwrap_or(0.0) }) }
+            step_deg: json::get_num(o, "step_deg")?, max_try: json::get_num(o, "max_try")? as usize, cancelled: o.contains("\"cancelled\": true"), margin: json::get_num(o, "margin").unwrap_or(0.0), j1_window: o.contains("\"j1_window\": true") }) }
 }
 pub fn check(s: &Scn) -> Option<(String, String)> {
     let free = robot(None);
@@ -20,6 +20,8 @@ pub fn check(s: &Scn) -> Option<(String, String)> {
     let mut mid = [0.0; 6]; for i in 0..6 { mid[i] = 0.5 * (s.start[i] + s.goal[i]); }
     let mp = free.forward(&mid) * nalgebra::Isometry3::translation(0.0, 0.0, -0.06);
     let k = if s.obstacle { robot_m(Some([mp.translation.x as f32, mp.translation.y as f32, mp.translation.z as f32]), s.margin as f32) } else { robot(None) };
+    // J1 limited to 90 .. 270 degrees (non-wrapping limits that reach beyond +180): every node must lie inside them LITERALLY
+    let k = if s.j1_window { robot_l(if s.obstacle { Some([mp.translation.x as f32, mp.translation.y as f32, mp.translation.z as f32]) } else { None }, 0.0, 90.0, 270.0) } else { k };
     if k.collides(&s.start) || k.collides(&s.goal) { return None; }
     let planner = RRTPlanner { step_size_joint_space: s.step_deg.to_radians(), max_try: s.max_try, debug: false };
     let stop = AtomicBool::new(s.cancelled);
@@ -34,6 +36,7 @@ pub fn check(s: &Scn) -> Option<(String, String)> {
     for (n, q) in path.iter().enumerate() {
         if k.collides(q) { return Some((format!("node {} of {} {:?} collides", n, path.len(), q), "every node reported collision-free by the same robot".into())); }
         if let Some(c) = k.constraints() { if !c.compliant(q) { return Some((format!("node {} {:?} outside the (non-wrapping) limits", n, q), "within limits".into())); } }
+        if s.j1_window && (q[0] < 90.0f64.to_radians() - 1e-12 || q[0] > 270.0f64.to_radians() + 1e-12) { return Some((format!("node {} has J1 = {:.3} deg, outside the limits 90 .. 270 deg", n, q[0].to_degrees()), "with non-wrapping limits every node within limits".into())); }
     }
     let step = s.step_deg.to_radians();
     for n in 1..path.len() {
@@ -47,7 +50,9 @@ pub fn search(seed: u64, budget: usize) -> Option<Found> {
     for n in 0..budget {
         let mut start = [0.0; 6]; let mut goal = [0.0; 6];
         for i in 0..6 { start[i] = r.range(-1.2, 1.2); goal[i] = start[i] + r.range(-0.8, 0.8); }
-        let s = Scn { start, goal, obstacle: n % 2 == 1, step_deg: [2.0, 3.0, 5.0][r.below(3)], max_try: [200, 1000][r.below(2)], cancelled: n % 7 == 6, margin: if n % 4 == 1 { 0.12 } else { 0.0 } };
+        let j1_window = n % 5 == 2;
+        if j1_window { start[0] = r.range(1.65, 1.9); goal[0] = r.range(1.65, 4.6); }
+        let s = Scn { start, goal, obstacle: n % 2 == 1 || j1_window, step_deg: [2.0, 3.0, 5.0][r.below(3)], max_try: [200, 1000][r.below(2)], cancelled: n % 7 == 6, margin: if n % 4 == 1 { 0.12 } else { 0.0 }, j1_window };
         if let Some((o, e)) = check(&s) { return Some(Found { kind: "c13".into(), case: s.to_json(), observed: o, expected: e }); }
     }
     None
